@@ -23,6 +23,8 @@ def run_native(script, args, timeout=1500):
 
 def report(pid, name, res, script):
     """-> (violation lines, evidence entry, error or None)"""
+    if "error" not in res and not res.get("cases"):
+        res = {"error": "no case could be run: " + "; ".join(res.get("errors", [])[:3])}
     if "error" in res:
         return [], {"what": name, "status": "error", "detail": res["error"]}, res["error"]
     rdir = os.environ.get("VERIF_REPLAY_DIR") or os.path.join(VERIF, "replay", "out")
